@@ -505,6 +505,7 @@ pub fn enumerate_states(muts: &[(Op, bool)], cap: usize) -> (Vec<(NTree, Vec<Op>
     q.push_back((start, vec![]));
     let mut complete = true;
     while let Some((t, h)) = q.pop_front() {
+        crate::infra::progress();
         out.push((t.clone(), h.clone()));
         if out.len() >= cap {
             complete = q.is_empty();
@@ -543,7 +544,7 @@ pub fn sweep(ctx: &Ctx, rep: &mut Report, mode: Mode, extra_ops: &dyn Fn(&NTree)
     let names: Vec<&str> = if ctx.thorough { vec!["a", "b", "c"] } else { vec!["a", "b"] };
     let paths = namespace(&names, 2);
     let (muts, queries) = sweep_alphabet(&paths, ctx.thorough);
-    let cap = if ctx.thorough { 6000 } else { 700 };
+    let cap = if ctx.thorough { 40_000 } else { 1_500 };
     let (states, complete) = enumerate_states(&muts, cap);
     if ctx.shard == 0 {
         rep.count("sweep_states", states.len() as u64);
@@ -693,7 +694,7 @@ pub fn random_op(rng: &mut Rng, paths: &[String], cwd: &str, uid: &mut u64) -> O
 pub fn random_histories(ctx: &Ctx, rep: &mut Report, mode: Mode) {
     let paths = namespace(&["a", "b", "c"], 3);
     let mut rng = ctx.rng("histories");
-    let n_hist = if ctx.thorough { 400 } else { 24 } / ctx.shards.max(1) + 1;
+    let n_hist = if ctx.thorough { 4000 } else { 48 } / ctx.shards.max(1) + 1;
     let mut uid = (ctx.shard as u64) << 40;
     rep.exhaustive = false;
     for h in 0..n_hist {
@@ -759,8 +760,91 @@ fn invalid_ops(t: &NTree) -> Vec<Op> {
     v
 }
 
+/// a write()/append() handle that outlives what it was opened on: the path is removed, replaced by something
+/// else or moved before the handle is flushed and dropped; the walker runs after every step
+fn stale_handle_scenarios(ctx: &Ctx, rep: &mut Report) {
+    use std::io::Write;
+    let replacements: Vec<(&str, Vec<Op>)> = vec![
+        ("kept", vec![]),
+        ("removed", vec![Op::Remove("/a/f".into())]),
+        ("dir", vec![Op::Remove("/a/f".into()), Op::MkdirP("/a/f/sub".into())]),
+        ("link", vec![Op::Remove("/a/f".into()), Op::Symlink("/a/f".into(), "/a/g".into())]),
+        ("link-to-dir", vec![Op::Remove("/a/f".into()), Op::Symlink("/a/f".into(), "/a".into())]),
+        ("file-again", vec![Op::Remove("/a/f".into()), Op::WriteAll("/a/f".into(), b"new".to_vec())]),
+        ("moved-away", vec![Op::MoveP("/a/f".into(), "/b".into())]),
+        ("parent-moved", vec![Op::MoveP("/a".into(), "/c".into())]),
+        ("parent-removed", vec![Op::RemoveAll("/a".into())]),
+        ("parent-replaced-by-file", vec![Op::RemoveAll("/a".into()), Op::WriteAll("/a".into(), b"p".to_vec())]),
+        ("dir-then-moved", vec![Op::Remove("/a/f".into()), Op::MkdirP("/a/f".into()), Op::MoveP("/a/f".into(), "/m".into()), Op::Remove("/m".into())]),
+        ("copied-over", vec![Op::Copy("/a/g".into(), "/a/f".into())]),
+    ];
+    let afters: Vec<Op> = vec![Op::ReadAll("/a/f".into()), Op::Remove("/a/f".into()), Op::RemoveAll("/a".into()), Op::MoveP("/a/f".into(), "/z".into()), Op::Mkfile("/a/f".into()), Op::WriteAll("/m".into(), b"x".to_vec()), Op::AllPaths("/".into())];
+    let mut idx = 0u64;
+    for append in [false, true] {
+        for pre_exists in [false, true] {
+            for (rname, repl) in &replacements {
+                for chunks in [0usize, 1, 2] {
+                    for flush_first in [false, true] {
+                        idx += 1;
+                        if !ctx.mine(idx) {
+                            continue;
+                        }
+                        let mut ls = LockStep::new(Mode::Invariants);
+                        let mut scratch = Report::new();
+                        ls.apply(&Op::MkdirP("/a".into()), &mut scratch);
+                        ls.apply(&Op::WriteAll("/a/g".into(), b"gg".to_vec()), &mut scratch);
+                        if pre_exists {
+                            ls.apply(&Op::WriteAll("/a/f".into(), b"old".to_vec()), &mut scratch);
+                        }
+                        let what = format!("{}-handle({},{})", if append { "append" } else { "write" }, if pre_exists { "file" } else { "absent" }, rname);
+                        set_case(&format!("inv:stale-{}:returns→stalls", what), &what);
+                        let h = if append { ls.mem.append("/a/f") } else { ls.mem.write("/a/f") };
+                        let mut h = match h {
+                            Ok(h) => h,
+                            Err(_) => continue,
+                        };
+                        for _ in 0..chunks {
+                            let _ = h.write_all(b"stale");
+                        }
+                        if flush_first {
+                            let _ = h.flush();
+                        }
+                        for op in repl {
+                            ls.apply(op, rep);
+                        }
+                        let _ = h.write_all(b"!");
+                        let _ = h.flush();
+                        let check = |ls: &LockStep, stage: &str, rep: &mut Report| {
+                            rep.eval();
+                            rep.count("invariant_walks", 1);
+                            rep.key_str(&format!("stale|{}|{}", what, stage));
+                            let snap = ls.mem.verif_snapshot();
+                            for (id, detail) in check_invariants(&snap) {
+                                rep.violation(
+                                    &format!("inv:{}(after={} of a stale {})", id, stage, what),
+                                    J::obj(vec![("scenario", J::s(&what)), ("replacement_calls", J::Arr(repl.iter().map(|o| J::s(o.describe())).collect())), ("stage", J::s(stage)), ("detail", J::s(detail)), ("state", memfs_ntree(&snap).to_json())]),
+                                );
+                                break;
+                            }
+                        };
+                        check(&ls, "flush", rep);
+                        drop(h);
+                        check(&ls, "drop", rep);
+                        // whatever was left behind must not resurface through later calls either
+                        ls.model.t = memfs_ntree(&ls.mem.verif_snapshot());
+                        for a in &afters {
+                            ls.apply(a, rep);
+                        }
+                    }
+                }
+            }
+        }
+    }
+}
+
 fn c03(ctx: &Ctx, rep: &mut Report) {
     std::env::set_var("HOME", HOME);
+    stale_handle_scenarios(ctx, rep);
     sweep(ctx, rep, Mode::Invariants, &invalid_ops);
     random_histories(ctx, rep, Mode::Invariants);
 }
